@@ -221,9 +221,25 @@ func (cg *BasicConnectionGater) ListBlockedAddrs() []net.IP {
 	return result
 }
 
+// canonicalSubnet returns the subnet the way loadRules reads it back from the
+// datastore: host bits cleared, CIDR mask. Rules are keyed by its text, so that
+// every spelling of a subnet names the same rule.
+func canonicalSubnet(ipnet *net.IPNet) (*net.IPNet, error) {
+	if _, bits := ipnet.Mask.Size(); bits == 0 {
+		// not a prefix mask: has no CIDR text, can't be persisted
+		return nil, &net.ParseError{Type: "CIDR mask", Text: ipnet.Mask.String()}
+	}
+	_, canonical, err := net.ParseCIDR(ipnet.String())
+	return canonical, err
+}
+
 // BlockSubnet adds an IP subnet to the set of blocked addresses.
 // Note: active connections to the IP subnet are not automatically closed.
 func (cg *BasicConnectionGater) BlockSubnet(ipnet *net.IPNet) error {
+	ipnet, err := canonicalSubnet(ipnet)
+	if err != nil {
+		return err
+	}
 	if cg.ds != nil {
 		err := cg.ds.Put(context.Background(), datastore.NewKey(keySubnet+ipnet.String()), []byte(ipnet.String()))
 		if err != nil {
@@ -242,6 +258,10 @@ func (cg *BasicConnectionGater) BlockSubnet(ipnet *net.IPNet) error {
 
 // UnblockSubnet removes an IP address from the set of blocked addresses
 func (cg *BasicConnectionGater) UnblockSubnet(ipnet *net.IPNet) error {
+	ipnet, err := canonicalSubnet(ipnet)
+	if err != nil {
+		return err
+	}
 	if cg.ds != nil {
 		err := cg.ds.Delete(context.Background(), datastore.NewKey(keySubnet+ipnet.String()))
 		if err != nil {
